@@ -12,7 +12,9 @@ The model follows the Go control flow function by function; names are the Go nam
 (both defects found for this property):
   * `toOptionsWithContext` rebuilt the option set without `Range` and `Inherit`;
   * `validateNumberRange` let NaN through (every comparison with NaN is false);
-  * `processNamedField` under `WithFromArray` called `reflect.TypeOf(nil).Kind()` on a null value (panic).
+  * `processNamedField` under `WithFromArray` called `reflect.TypeOf(nil).Kind()` on a null value (panic);
+  * `generateMap` stored non-pointer values into maps with pointer element type (`SetMapIndex` panic) and
+    `fillSlice` formatted its error with `reflect.Value.Type` of a nil map value (panic).
 -/
 namespace GoZero.C08
 
@@ -127,6 +129,7 @@ inductive Err where
   | dep           -- optional=dep / optional=!dep violated
   | tag           -- malformed tag option
   | unsupported   -- errUnsupportedType
+  | json          -- encoding/json refused a string-encoded slice/map
   | panic         -- the Go code would panic
   | outside       -- outside the modelled family (never produced on generated inputs)
   deriving Repr, DecidableEq
@@ -134,7 +137,7 @@ inductive Err where
 def Err.name : Err → String
   | .notSet => "notset" | .range => "range" | .options => "options" | .mismatch => "mismatch"
   | .syntax => "syntax" | .overflow => "overflow" | .notString => "notstring" | .nilValue => "nil"
-  | .dep => "dep" | .tag => "tag" | .unsupported => "unsupported" | .panic => "panic" | .outside => "outside"
+  | .dep => "dep" | .tag => "tag" | .unsupported => "unsupported" | .json => "json" | .panic => "panic" | .outside => "outside"
 
 /-- last binding wins, as in a Go map built by the decoder -/
 def getKey (k : Str) : Obj → Option J
@@ -234,15 +237,38 @@ def maxFloat32 : Dec := .ofInt (2 ^ 128 - 2 ^ 104)
 /-- math.MaxFloat64 = 2^1024 − 2^971 -/
 def maxFloat64 : Dec := .ofInt (2 ^ 1024 - 2 ^ 971)
 
-/-- the number a text denotes in `strconv.ParseFloat` syntax, machine limits aside:
-decimals, `inf`/`infinity` with optional sign, `nan`; hex floats are outside the model. -/
+/-- `underscoreOK` of strconv for decimal text: an underscore only between two digits;
+`saw`: `^` start, `0` digit, `_` underscore, `!` anything else -/
+def underscoreLoop : Str → Char → Bool
+  | [], saw => saw ≠ '_'
+  | c :: rest, saw =>
+    if isDigit c then underscoreLoop rest '0'
+    else if c = '_' then (if saw ≠ '0' then false else underscoreLoop rest '_')
+    else if saw = '_' then false
+    else underscoreLoop rest '!'
+
+/-- the text without its digit-separating underscores, if they are placed legally -/
+def cleanUnderscores (s : Str) : Option Str :=
+  if !s.contains '_' then some s
+  else if underscoreLoop s '^' then some (s.filter (· ≠ '_')) else none
+
+/-- the number a text denotes in `strconv.ParseFloat` syntax, machine limits aside: decimals (with
+digit-separating underscores), `inf`/`infinity` with optional sign, `nan`; hex floats with a `p` exponent are
+outside the model. -/
 def floatSyntax (s : Str) : Except Err Num :=
-  let l := lower s
-  if l = "nan".toList then .ok .nan
-  else if l = "inf".toList ∨ l = "+inf".toList ∨ l = "infinity".toList ∨ l = "+infinity".toList then .ok .posInf
-  else if l = "-inf".toList ∨ l = "-infinity".toList then .ok .negInf
-  else if l.take 2 = "0x".toList ∨ l.take 3 = "-0x".toList ∨ l.take 3 = "+0x".toList then .error .outside
-  else (parseDec s).map .fin
+  match cleanUnderscores s with
+  | none => .error .syntax
+  | some s' =>
+    match parseDec s' with
+    | .ok d => .ok (.fin d)
+    | .error e =>
+      let l := lower s
+      if l = "nan".toList then .ok .nan
+      else if l = "inf".toList ∨ l = "+inf".toList ∨ l = "infinity".toList ∨ l = "+infinity".toList then .ok .posInf
+      else if l = "-inf".toList ∨ l = "-infinity".toList then .ok .negInf
+      else if l.take 2 = "0x".toList ∨ l.take 3 = "-0x".toList ∨ l.take 3 = "+0x".toList then
+        (if l.contains 'p' then .error .outside else .error .syntax)
+      else .error e
 
 /-- `strconv.ParseFloat(s, bits)`: `floatSyntax` plus the overflow test of the target size -/
 def parseFloat (bits : Nat) (s : Str) : Except Err Num :=
@@ -605,12 +631,6 @@ def structRequired : Fields → Except Err Bool
         else if o.optionalDep.head? = some '!' then .ok true
         else structRequired rest
 
-/-- `setValueFromString(kind, value, default)` through `ensureValue` (allocates every pointer level) -/
-def defaultVal : Ty → Str → Except Err Val
-  | .ptr t, d => (defaultVal t d).map .ptr
-  | .prim k, d => convertFromString k d
-  | _, _ => .error .unsupported
-
 /-- effective input of a field under `WithFromArray` -/
 def fromArrayValue (c : Cfg) (isSlice : Bool) (j : J) : J :=
   if c.fromArray && !isSlice then
@@ -665,23 +685,159 @@ def Ty.isSlice : Ty → Bool
   | .slice _ => true
   | _ => false
 
+/-! ### slices and maps -/
+
+def mapElems (f : J → Except Err Val) : List J → Except Err VList
+  | [] => .ok .nil
+  | j :: rest =>
+    match f j with
+    | .error e => .error e
+    | .ok v =>
+      match mapElems f rest with
+      | .error e => .error e
+      | .ok vs => .ok (.cons v vs)
+
+def mapEntries (f : J → Except Err Val) : Obj → Except Err VFields
+  | [] => .ok .nil
+  | (k, j) :: rest =>
+    match f j with
+    | .error e => .error e
+    | .ok v =>
+      match mapEntries f rest with
+      | .error e => .error e
+      | .ok vs => .ok (.cons k v vs)
+
+def allNull : List J → Bool
+  | [] => true
+  | j :: rest => j.isNull && allNull rest
+
+/-- what `fillSlice` stores: an empty slice for `[]`, nothing (nil) when every element is null, else the converted elements -/
+def sliceResult (l : List J) (vs : VList) : Val :=
+  if l.isEmpty then .list .nil else if allNull l then .nil else .list vs
+
+def strLt : Str → Str → Bool
+  | [], [] => false
+  | [], _ :: _ => true
+  | _ :: _, [] => false
+  | a :: as, b :: bs => a.toNat < b.toNat || (a.toNat = b.toNat && strLt as bs)
+
+/-- insert a binding into a key-sorted object, replacing an earlier binding of the same key -/
+def insertEntry (k : Str) (j : J) : Obj → Obj
+  | [] => [(k, j)]
+  | (k', j') :: rest =>
+    if k = k' then (k, j) :: rest
+    else if strLt k k' then (k, j) :: (k', j') :: rest
+    else (k', j') :: insertEntry k j rest
+
+/-- the entries of a decoded object as a Go map holds them (last binding wins), in key order (the order the
+harness prints map results in) -/
+def canonObj (m : Obj) : Obj := m.foldl (fun acc kv => insertEntry kv.1 kv.2 acc) []
+
+def derefKind : Ty → Option Kind
+  | .ptr t => derefKind t
+  | .prim k => some k
+  | _ => none
+
+/-- pointer to slice / pointer to map: not followed by the model -/
+def Ty.isContainer : Ty → Bool
+  | .slice _ => true
+  | .map _ => true
+  | _ => false
+
+/-- `fillSliceWithDefault` for `[]string`: the default is split with `parseGroupedSegments` -/
+def strList : List Str → VList
+  | [] => .nil
+  | s :: rest => .cons (.str s) (strList rest)
+
+/-- `setValueFromString(kind, value, default)` through `ensureValue` (allocates every pointer level);
+`[]string` defaults go through `fillSliceWithDefault` -/
+def defaultVal : Ty → Str → Except Err Val
+  | .ptr t, d => if t.isContainer then .error .outside else (defaultVal t d).map .ptr
+  | .prim k, d => convertFromString k d
+  | .slice (.prim .string), d =>
+    .ok (if (parseGroupedSegments d).isEmpty then .nil else .list (strList (parseGroupedSegments d)))
+  | .slice _, _ => .error .outside
+  | _, _ => .error .unsupported
+
 mutual
 /-- `processNamedFieldWithValue` below the nil test: dispatch on the dereferenced kind; pointers are
 allocated on the way back (`SetValue`). -/
 def withValue (c : Cfg) (o : Option Opts) : Ty → J → Except Err Val
-  | .ptr t, j => (withValue c o t j).map .ptr
+  | .ptr t, j => if t.isContainer then .error .outside else (withValue c o t j).map .ptr
   | .prim k, j => primWithValue c o k j
   | .struct fs, j =>
     match j with
     | .obj m => (unmFields c fs m).map .struct
     | .num lit => jsonNumberPath c o none lit
     | _ => .error .mismatch
-  | .slice _, _ => .error .outside
-  | .map _, _ => .error .outside
+  | .slice t, j =>
+    match j with
+    | .arr l => (mapElems (fun j => if j.isNull then .ok (zero t) else elemValue c t j) l).map (sliceResult l)
+    | .num _ => .error .json          -- fillSliceFromString: encoding/json refuses a number
+    | .str _ => .error .outside       -- string-encoded slice ([]byte base64, JSON text)
+    | _ => .error .mismatch
+  | .map t, j =>
+    match j with
+    | .obj m => (mapEntries (fun j => mapElemValue c t j) (canonObj m)).map .map
+    | .num _ => .error .json          -- fillMapFromString
+    | .str _ => .error .outside
+    | _ => .error .mismatch
+
+/-- one non-null element of a slice (`fillSlice` loop body / `fillSliceValue`) -/
+def elemValue (c : Cfg) : Ty → J → Except Err Val
+  | .ptr t, j => if t.isContainer then .error .outside else (elemValue c t j).map .ptr
+  | .prim k, j =>
+    match j with
+    | .num s => convertFromString k s
+    | .str s => convertFromString k s
+    | .bool b => if k = .bool then .ok (.bool b) else .error .mismatch
+    | _ => .error .mismatch
+  | .struct fs, j =>
+    match j with
+    | .obj m => (unmFields c fs m).map .struct
+    | _ => .error .mismatch
+  | .slice t, j =>
+    match j with
+    | .arr l => (mapElems (fun j => if j.isNull then .ok (zero t) else elemValue c t j) l).map (sliceResult l)
+    | _ => .error .mismatch
+  | .map t, j =>
+    match j with
+    | .obj m => (mapEntries (fun j => mapElemValue c t j) (canonObj m)).map .map
+    | .num _ => .error .unsupported
+    | .str _ => .error .unsupported
+    | _ => .error .mismatch
+
+/-- one value of a map (`generateMap` loop body; repaired code: pointer element types go through
+`SetMapIndexValue`, a null for a slice element type is a type mismatch) -/
+def mapElemValue (c : Cfg) : Ty → J → Except Err Val
+  | .ptr t, j =>
+    if t.isContainer then .error .outside
+    else if c.pinned && (derefKind t).isSome then
+      (match mapElemValue c t j with | .error e => .error e | .ok _ => .error .panic)
+    else (mapElemValue c t j).map .ptr
+  | .prim k, j =>
+    match j with
+    | .bool b => if k = .bool then .ok (.bool b) else .error .mismatch
+    | .str s => if k = .string then .ok (.str s) else .error .mismatch
+    | .num lit => convertFromString k lit
+    | _ => .error .mismatch
+  | .struct fs, j =>
+    match j with
+    | .obj m => (unmFields c fs m).map .struct
+    | _ => .error .mismatch
+  | .slice t, j =>
+    match j with
+    | .arr l => (mapElems (fun j => if j.isNull then .ok (zero t) else elemValue c t j) l).map (sliceResult l)
+    | .null => if c.pinned then .error .panic else .error .mismatch
+    | _ => .error .mismatch
+  | .map t, j =>
+    match j with
+    | .obj m => (mapEntries (fun j => mapElemValue c t j) (canonObj m)).map .map
+    | _ => .error .mismatch
 
 /-- `processNamedFieldWithoutValue` for a field that is neither defaulted nor optional -/
 def absentRequired (c : Cfg) : Ty → Except Err Val
-  | .ptr t => (absentRequired c t).map .ptr
+  | .ptr t => if t.isContainer then .error .outside else (absentRequired c t).map .ptr
   | .prim _ => .error .notSet
   | .struct fs =>
     match structRequired fs with
@@ -689,7 +845,7 @@ def absentRequired (c : Cfg) : Ty → Except Err Val
     | .ok true => .error .notSet
     | .ok false => (unmFields c fs []).map .struct
   | .slice _ => .error .mismatch
-  | .map _ => .error .outside
+  | .map _ => .ok (.map .nil)
 
 def unmFields (c : Cfg) : Fields → Obj → Except Err VFields
   | .nil, _ => .ok .nil
